@@ -2,10 +2,10 @@
 # test_seed.sh <seed-id> <PROP> [<PROP>...] : run checks against a scratch worktree with the seeded patch applied
 ID=$1; shift
 WT=/tmp/seedtest
-cd $WT && git checkout -q -- . && git checkout -q --detach main && { git apply /verif/seeded/$ID/patch.diff 2>/dev/null || git apply --3way /verif/seeded/$ID/patch.diff 2>/dev/null; } || { echo "$ID: patch failed"; git checkout -q -- .; exit 3; }
+cd $WT && git reset -q --hard && git checkout -q --detach main && { git apply /verif/seeded/$ID/patch.diff 2>/dev/null || git apply --3way /verif/seeded/$ID/patch.diff 2>/dev/null; } || { echo "$ID: patch failed"; git checkout -q -- .; exit 3; }
 cd /verif
 for P in "$@"; do
   VERIF_REPO=$WT VERIF_CACHE=/tmp/seedcache VERIF_EVIDENCE=/tmp/seedev VERIF_REPLAY=/tmp/seedreplay ./check $P --tier ${TIER:-quick} > /tmp/seedtest_${ID}_$P.log 2>&1
   echo "$ID $P exit=$? $(grep -c '^VIOLATION' /tmp/seedtest_${ID}_$P.log) violations :: $(grep -A1 '^VIOLATION' /tmp/seedtest_${ID}_$P.log | grep obligation | head -2 | tr '\n' ' ' | cut -c1-220)"
 done
-cd $WT && git checkout -q -- .
+cd $WT && git reset -q --hard
